@@ -30,6 +30,7 @@ import (
 	"io"
 	"log/slog"
 	"os"
+	"sync"
 
 	"github.com/goblimey/go-ntrip/apps/rtcmlogger/config"
 	"github.com/goblimey/go-tools/dailylogger"
@@ -98,9 +99,18 @@ func start(cfg *config.Config) {
 	// input is from a live GNSS device, the function will run until
 	// the device stops sending or this process is killed.
 	recorderChannel := make(chan []byte)
+	// The program exits as soon as this returns, so after the channel has
+	// been closed (the deferred call below runs first) wait until the
+	// recorder has written everything it was sent.
+	var recorderDone sync.WaitGroup
+	defer recorderDone.Wait()
 	defer close(recorderChannel)
 	dailyRecorder := newLogWriter(cfg)
-	go recorder(recorderChannel, dailyRecorder, cfg)
+	recorderDone.Add(1)
+	go func() {
+		defer recorderDone.Done()
+		recorder(recorderChannel, dailyRecorder, cfg)
+	}()
 
 	readAndWrite(recorderChannel, cfg)
 
